@@ -14,21 +14,23 @@ const sigStopBlocks = "stop-blocks-for-nat-timeout"
 
 // phase kinds
 const (
-	phEstablish  = "establish"   // every session: one paced datagram (echo expected)
-	phBurst      = "burst"       // every session: N datagrams back to back (queued uplink)
-	phStream     = "stream"      // async: every session keeps sending until the scenario ends
-	phFlood      = "flood"       // async: the destinations keep sending replies to every session
-	phPauseShort = "pauseShort"  // no client traffic for a fraction of the NAT timeout
-	phPauseEvict = "pauseEvict"  // no client traffic for >= NAT timeout + slack: sessions must be gone
-	phResend     = "resend"      // every session: one paced datagram again
-	phBlockInit  = "blockInit"   // new sessions whose initialisation / first pack blocks in the resolver
-	phReject     = "reject"      // new sessions whose first datagram the router rejects
-	phFailInit   = "failInit"    // new sessions whose initialisation fails (endpoint or target name does not resolve)
-	phKeepAlive  = "keepAlive"   // every session keeps sending with gaps of natTimeout/5 for 1.5 x natTimeout: it must keep its relay socket
-	phPackFail   = "packFail"    // after everything is idle: new sessions whose datagrams ALL fail to pack (target name does not resolve / payload exceeds the outbound client's MTU), then silence: they must be evicted too
-	phSteady     = "steady"      // every session sends one datagram every natTimeout/30 for 2.5 x natTimeout: the destination must see one source address only
-	phRefused    = "refused"     // every session: a burst of N datagrams the kernel refuses to send (target port 0) back to back, then a paced valid one
-	phExpiry     = "expiryProbe" // one datagram per session timed around the instant the idle timeout fires (packet arrives while the session is torn down)
+	phEstablish  = "establish"    // every session: one paced datagram (echo expected)
+	phBurst      = "burst"        // every session: N datagrams back to back (queued uplink)
+	phStream     = "stream"       // async: every session keeps sending until the scenario ends
+	phFlood      = "flood"        // async: the destinations keep sending replies to every session
+	phPauseShort = "pauseShort"   // no client traffic for a fraction of the NAT timeout
+	phPauseEvict = "pauseEvict"   // no client traffic for >= NAT timeout + slack: sessions must be gone
+	phResend     = "resend"       // every session: one paced datagram again
+	phBlockInit  = "blockInit"    // new sessions whose initialisation / first pack blocks in the resolver
+	phReject     = "reject"       // new sessions whose first datagram the router rejects
+	phFailInit   = "failInit"     // new sessions whose initialisation fails (endpoint or target name does not resolve)
+	phKeepAlive  = "keepAlive"    // every session keeps sending with gaps of natTimeout/5 for 1.5 x natTimeout: it must keep its relay socket
+	phPackFail   = "packFail"     // after everything is idle: new sessions whose datagrams ALL fail to pack (target name does not resolve / payload exceeds the outbound client's MTU), then silence: they must be evicted too
+	phSteady     = "steady"       // every session sends one datagram every natTimeout/30 for 2.5 x natTimeout: the destination must see one source address only
+	phGapKeep    = "gapKeepAlive" // session i sends single datagrams with gaps of gapFractions[i%5] x natTimeout (4 gaps), then a reply arrives 0.5 x natTimeout after its last datagram
+	phLateFail   = "lateFail"     // socks5 client: new sessions whose initialisation fails after the control connection is up (scripted at the fake upstream)
+	phRefused    = "refused"      // every session: a burst of N datagrams the kernel refuses to send (target port 0) back to back, then a paced valid one
+	phExpiry     = "expiryProbe"  // one datagram per session timed around the instant the idle timeout fires (packet arrives while the session is torn down)
 )
 
 type phase struct {
@@ -48,6 +50,7 @@ type plan struct {
 	ClientProto    string  `json:"clientProto"`
 	ClientEIH      bool    `json:"clientEIH"`
 	EndpointByName bool    `json:"endpointByName"`
+	ClientAuth     bool    `json:"clientAuth,omitempty"` // socks5 client with username/password
 	NATTimeoutMs   int     `json:"natTimeoutMs"`
 	NSessions      int     `json:"nSessions"`
 	Phases         []phase `json:"phases"`
@@ -57,6 +60,11 @@ type plan struct {
 	// are released this long after Stop was issued (scripted in-flight work: Stop may take that much longer).
 	HandshakeMs int `json:"handshakeMs"`
 }
+
+var lateFailVariants = []string{"bound-domain-unresolvable", "bound-domain-wrong-family", "reply-failure", "close-after-reply"}
+
+// gapFractions (percent of the NAT timeout) of the gapKeepAlive phase, by session index.
+var gapFractions = []int{20, 45, 55, 70, 90}
 
 var natProtos = []string{"socks5", "none", "direct"}
 var ssProtos = []string{"2022-blake3-aes-128-gcm", "2022-blake3-aes-256-gcm"}
@@ -88,6 +96,9 @@ func drawPlan(rt *rapid.T) *plan {
 	if p.ClientProto != "direct" {
 		p.EndpointByName = rapid.Bool().Draw(rt, "endpointByName")
 	}
+	if p.ClientProto == "socks5" {
+		p.ClientAuth = rapid.Bool().Draw(rt, "clientAuth")
+	}
 	p.NSessions = rapid.SampledFrom([]int{1, 1, 2, 3, 4, 8, 16}).Draw(rt, "nSessions")
 
 	evict := !ss && rapid.IntRange(0, 9).Draw(rt, "shape") < 4
@@ -110,6 +121,9 @@ func drawPlan(rt *rapid.T) *plan {
 			ph.Pct = rapid.SampledFrom([]int{5, 20, 50}).Draw(rt, "pausePct")
 		case phBlockInit, phReject, phFailInit:
 			ph.N = rapid.IntRange(1, 4).Draw(rt, "newSessions")
+		case phLateFail:
+			ph.N = rapid.IntRange(1, 3).Draw(rt, "lateFailSessions")
+			ph.Variant = rapid.SampledFrom(lateFailVariants).Draw(rt, "lateFailVariant")
 		case phPackFail:
 			ph.N = rapid.IntRange(1, 3).Draw(rt, "packFailSessions")
 			ph.Variant = rapid.SampledFrom([]string{"unresolvable", "toobig"}).Draw(rt, "packFailVariant")
@@ -123,6 +137,12 @@ func drawPlan(rt *rapid.T) *plan {
 		}
 		if p.NATTimeoutMs >= 400 && p.NATTimeoutMs <= 1000 {
 			alphabet = append(alphabet, phSteady, phSteady, phPackFail, phPackFail)
+		}
+		if p.NATTimeoutMs == 1000 {
+			alphabet = append(alphabet, phGapKeep)
+		}
+		if p.ClientProto == "socks5" {
+			alphabet = append(alphabet, phLateFail, phLateFail, phLateFail)
 		}
 		n := rapid.IntRange(0, 5).Draw(rt, "nPhases")
 		for i := 0; i < n; i++ {
@@ -205,7 +225,7 @@ func (p *plan) class() string {
 	case p.NSessions >= 2:
 		nb = "2-4"
 	}
-	return fmt.Sprintf("%s|eih=%v|%s|%s|ceih=%v|byname=%v|T=%d|n=%s|%s", p.ServerProto, p.ServerEIH, p.BatchMode, p.ClientProto, p.ClientEIH, p.EndpointByName, p.NATTimeoutMs, nb, s)
+	return fmt.Sprintf("%s|eih=%v|%s|%s|ceih=%v|byname=%v|T=%d|n=%s|%s", p.ServerProto, p.ServerEIH, p.BatchMode, p.ClientProto, p.ClientEIH, p.EndpointByName, p.NATTimeoutMs, nb, s) + fmt.Sprintf("|auth=%v", p.ClientAuth)
 }
 
 var _ = ev.IsKnown
